@@ -7,3 +7,5 @@
 (declare-fun ucall (Val Val Val) Bool)
 (declare-fun ucallerr (Val Val) Val)
 (define-fun noErr () Val nilVal)   ; the nil error, as a term usable in conditional spec expressions
+; twith t name v: the tuple t.With(name, v) (interface-level meaning, a function of the values)
+(declare-fun twith (Val Str Val) Val)
